@@ -248,7 +248,15 @@ def stepN (fo : FloatOps) (fuel : Nat) (s : StN) (op : Json) : E (StN × Json) :
       ("shape", jNats d.shape), ("freq", jRats d.freq), ("err2", jRats d.err2), ("dtype", d.dtype.name),
       ("missed", Json.arr (d.missed.map jNRat).toArray), ("missed_keep", d.missedKeep), ("axis_names", jStrs d.axisNames)]
     pure (s.set (← reg "out") (HN.fromDict d), doc)
-  | "invalid" => pure (s, Json.str "REFUSED")
+  | "invalid" =>
+    -- refused calls leave the state alone, except that `fill` has already promoted the dtype for its (default, python
+    -- int) weight when it finds the value's shape wrong -- a lossless promotion, as the property allows
+    match (fieldD op "what").getStr?.toOption with
+    | some "fill_wrong_dim" =>
+      match (do let r ← reg "h"; let h ← s.get r; pure (r, h) : E (Nat × HN)) with
+      | .ok (r, h) => pure (s.set r (h.coerce .i64), Json.str "REFUSED")
+      | .error _ => pure (s, Json.str "REFUSED")
+    | _ => pure (s, Json.str "REFUSED")
   | _ => throw s!"unknown ND op {name}"
 
 def runHistN (fo : FloatOps) (case : Json) : E Json := do
